@@ -73,7 +73,9 @@ class BaseWorld:
         stubs = list(stubs or [])
         if self.symbolic:
             stubs += world.rewrite_stubs()
-        with self._shims(), _Stubs(stubs):
+        import io
+
+        with self._shims(), _Stubs(stubs), contextlib.redirect_stdout(io.StringIO()):
             try:
                 v = thunk()
                 return Outcome("return", v)
